@@ -8,6 +8,7 @@
 //                                   construction kind of each live one, in id order
 //                                   (D default, I from int, C copy, M move, V converted from Seed, X C++-side, O member of an Owner)
 //     in:<fn>:<live>                a registered C++ function was entered with that many live objects
+//     val:<label>:<n>               script called checkval(label, e): the int the expression evaluated to
 //     t:<id>                        a member of a live object was used (script `get`/`set`/`id` or C++ side)
 //     err:<class>                   the segment ended with that exception class
 //     TOUCH-AFTER-DESTROY:<id|?>    a member function ran on a destroyed object (canary poisoned)
@@ -121,6 +122,8 @@ namespace {
   void checkpoint(const std::string &label) {
     g->items.push_back("cp:" + label + ":" + std::to_string(g->live()) + ":" + g->kinds());
   }
+  // the value a script expression evaluates to (loop counters referred to after their loop): val:<label>:<value>
+  void checkval(const std::string &label, int v) { g->items.push_back("val:" + label + ":" + std::to_string(v)); }
   void fail_here() { throw std::runtime_error("fail_here"); }
 
   ModulePtr life_module() {
@@ -171,6 +174,7 @@ namespace {
     m->add(fun(&bv_of), "bv_of");
     m->add(fun(&last_kept), "last_kept");
     m->add(fun(&checkpoint), "checkpoint");
+    m->add(fun(&checkval), "checkval");
     m->add(fun(&fail_here), "fail_here");
     return m;
   }
